@@ -1392,3 +1392,21 @@ for _n in ('presorted-setops', 'presorted-joins', 'presorted-groups',
            'presorted-other'):
     RECIPES[_n].stackable = False
 NAMES = sorted(RECIPES)
+
+
+def yields_conflicts(name, vi):
+    """Variants built on merge()/mergeduplicates(): they deliver Conflict
+    (frozenset) cells, whose text form depends on the interpreter's hash
+    seed; nothing that renders cells as text is stacked on them."""
+    names = RECIPES[name].variants[vi].__code__.co_names
+    return 'mergeduplicates' in names or 'merge' in names
+
+
+def cut_after_conflicts(stack):
+    """Drops (in place) whatever is stacked on a stage that yields Conflict
+    cells; returns True when such a stage is in the stack."""
+    for i, (n, vi) in enumerate(stack):
+        if yields_conflicts(n, vi):
+            del stack[i + 1:]
+            return True
+    return False
